@@ -119,7 +119,7 @@ def parse_model_block(lines):
             h = head.split()
             cur["S"].append({"i": int(h[1]), "type": int(h[2]), "objtype": int(h[3]), "objid": int(h[4]), "reftype": int(h[5]), "refid": int(h[6]),
                              "datatype": int(h[7]), "stage": int(h[8]), "dim": int(h[9]), "adr": int(h[10]), "cutoff": unhx(h[11]),
-                             "kind": h[12], "scl": unhx(h[13]), "dofless": int(h[14]), "obs": [unhx(x) for x in obs.split()], "exp": [unhx(x) for x in exp.split()]})
+                             "kind": h[12], "scl": unhx(h[13]), "dofless": int(h[14]), "docdim": int(h[15]), "obs": [unhx(x) for x in obs.split()], "exp": [unhx(x) for x in exp.split()]})
         elif t[0] == "CAN":
             cur["CAN"] = list(map(int, t[1:]))
         elif t[0] == "TCH":
@@ -304,6 +304,8 @@ def run(ctx):
                     ddim = None
                 else:
                     ddim, cls = DOC.get(tname, (None, None))
+                    if s["docdim"] >= 0:
+                        ddim = s["docdim"]       # actuator sensors: one value per force output
                 if ddim is not None and s["dim"] != ddim:
                     ctx.violation("impl_violation", scase, expected="documented output size %d" % ddim, observed=s["dim"], theorem="C28 oracle",
                                   signature={"site": "mjs_sensorDim", "sensor": tname})
